@@ -101,5 +101,6 @@ UNIT = Unit(
         incbin, is_whitespace, incstr, incbinstr, inchexstr,
     ] + bv.items("stub", "util", only=["new", "write_bit", "len", "to_bigint"]),
     serves=["C14", "C03", "C19"],
+    carry_facts_into_loops=False,   # this unit's proofs need isolated loops (loop `ensures` clauses, or the solver runs out of resources with the wider context)
     description="asm::resolver::eval_fn: the file inclusion functions",
 )
